@@ -42,10 +42,17 @@ theorem c09h_powerOn_folders (n : Node) : n.powerOn.folders = n.folders := by
   · rfl
   · split <;> rfl
 
-theorem c09h_powerOff_folders (n : Node) : n.powerOff.folders = n.folders := by
-  unfold Node.powerOff Node.mapSws
+theorem c09h_offNow_folders (n : Node) : n.offNow.folders = n.folders := by
+  unfold Node.offNow Node.mapSws
+  simp only []
   split
+  · rw [c09h_powerOn_folders]
   · rfl
+
+theorem c09h_powerOff_folders (n : Node) : n.powerOff.folders = n.folders := by
+  unfold Node.powerOff
+  split
+  · exact c09h_offNow_folders n
   · split <;> rfl
 
 theorem c09h_bootPhase_folders (n : Node) : n.bootPhase.folders = n.folders := by
@@ -59,10 +66,7 @@ theorem c09h_shutPhase_folders (n : Node) : n.shutPhase.folders = n.folders := b
   split
   · rfl
   · split
-    · simp only []
-      split
-      · rw [c09h_powerOn_folders]; rfl
-      · rfl
+    · exact c09h_offNow_folders n
     · rfl
 
 theorem c09h_powerPhase_folders (n : Node) : n.powerPhase.folders = n.folders := by
